@@ -379,7 +379,11 @@ pub fn replay<W: Write>(out: &mut W, opts: &HashMap<String, String>) {
 // Engine `F` (C18): one invocation, a fault injected at the k-th file-system write operation.
 //   F|id|<tree>|<args>|<k>|=>|exit=..;tree=..;op=<kind>:<hexpath>;msg=<0|1>;nops=<n>
 
-fn run_fault_case(tree: &Snap, inv: &[String], k: Option<usize>) -> (String, usize) {
+fn run_fault_case(tree: &Snap, inv: &[String], k: Option<usize>) -> (String, usize) { let r = run_fault_case2(tree, inv, k, 0); (r.0, r.1) }
+
+/// `limit`: a failing content write lets this many bytes of the file through first (short write, then EFBIG).
+/// Also returns the operation trace (kind, path relative to the working directory) and the resulting tree.
+fn run_fault_case2(tree: &Snap, inv: &[String], k: Option<usize>, limit: u64) -> (String, usize, Vec<(String, Vec<u8>)>, Snap) {
     let dir = tempfile::Builder::new().prefix("rqf").tempdir_in("/verif/build/tmp").unwrap();
     let base = dir.path().join("w");
     std::fs::create_dir(&base).unwrap();
@@ -390,8 +394,11 @@ fn run_fault_case(tree: &Snap, inv: &[String], k: Option<usize>) -> (String, usi
     // content writes fail in the kernel (EFBIG), not in the hook: the error has to come through the
     // buffered writers of the real code (VERIF_SIMULATED_WRITES=1: the hook returns the error itself)
     crate::verif::fault_real_writes(std::env::var("VERIF_SIMULATED_WRITES").is_err());
+    crate::verif::fault_write_limit(limit);
     let r = std::panic::catch_unwind(|| crate::cmd::run(args.iter()));
-    let (count, failed, _trace) = crate::verif::fault_report();
+    let (count, failed, trace) = crate::verif::fault_report();
+    crate::verif::fault_write_limit(0);
+    let trace: Vec<(String, Vec<u8>)> = trace.iter().map(|(k, p)| (k.clone(), p.strip_prefix(&base).unwrap_or(p).as_os_str().as_bytes().to_vec())).collect();
     crate::verif::fault_reset(None);
     let (exit, msg) = match &r {
         Ok(Ok(true)) => (0, String::new()),
@@ -411,7 +418,7 @@ fn run_fault_case(tree: &Snap, inv: &[String], k: Option<usize>) -> (String, usi
             (format!("{}:{}", kind, hex(rel.as_os_str().as_bytes())), ok as u8)
         }
     };
-    (format!("exit={};tree={};op={};msg={}", exit, render_tree(&after), op, named), count)
+    (format!("exit={};tree={};op={};msg={}", exit, render_tree(&after), op, named), count, trace, after)
 }
 
 pub fn run_faults<W: Write>(out: &mut W, seed: u64, n: usize, opts: &HashMap<String, String>) {
@@ -419,6 +426,7 @@ pub fn run_faults<W: Write>(out: &mut W, seed: u64, n: usize, opts: &HashMap<Str
     let per_case: usize = opts.get("perws").and_then(|s| s.parse().ok()).unwrap_or(6);
     let threads: Vec<usize> = opts.get("threads").map(|s| s.split(',').map(|x| x.parse().unwrap()).collect()).unwrap_or(vec![1]);
     let mut rng = Rng::new(seed ^ 0xfa17);
+    crate::wsgen::BIG_LINE_PCT.store(opts.get("bigline").and_then(|s| s.parse().ok()).unwrap_or(3), std::sync::atomic::Ordering::Relaxed);
     let mut id = 0;
     while id < n {
         let rich = rng.chance(30);
@@ -426,16 +434,19 @@ pub fn run_faults<W: Write>(out: &mut W, seed: u64, n: usize, opts: &HashMap<Str
         let mut inv = gen_options(&mut rng, &threads);
         inv.extend(gen_goal(&mut rng, &ws));
         crate::watch::begin(format!("F|{}|{}|{}|0", id, render_tree(&ws.tree), if inv.is_empty() { "-".to_string() } else { inv.join(" ") }));
-        let (_, nops) = run_fault_case(&ws.tree, &inv, None);
+        let (_, nops, trace, after) = run_fault_case2(&ws.tree, &inv, None, 0);
         crate::watch::end();
         if nops == 0 { continue; }
         // every k if few operations, otherwise a random sample (thorough: perws large enough for all)
         let ks: Vec<usize> = if nops <= per_case { (0..nops).collect() } else { let mut v: Vec<usize> = (0..per_case).map(|_| rng.below(nops)).collect(); v.sort(); v.dedup(); v };
         for k in ks {
+            // a failing content write: half of the time part of the file still gets through (a short write)
+            let size = match (trace.get(k), trace.get(k).and_then(|(_, p)| after.get(p))) { (Some((kind, _)), Some(Entry::File(_, c))) if kind == "write" => c.len(), _ => 0 };
+            let limit: u64 = if size >= 2 && rng.chance(50) { (1 + rng.below(size - 1)) as u64 } else { 0 };
             crate::watch::begin(format!("F|{}|{}|{}|{}", id, render_tree(&ws.tree), if inv.is_empty() { "-".to_string() } else { inv.join(" ") }, k));
-            let (res, _) = run_fault_case(&ws.tree, &inv, Some(k));
+            let (res, _, _, _) = run_fault_case2(&ws.tree, &inv, Some(k), limit);
             crate::watch::end();
-            writeln!(out, "F|{}|{}|{}|{}|=>|{};nops={}", id, render_tree(&ws.tree), if inv.is_empty() { "-".to_string() } else { inv.join(" ") }, k, res, nops).unwrap();
+            writeln!(out, "F|{}|{}|{}|{}|=>|{};nops={};limit={}", id, render_tree(&ws.tree), if inv.is_empty() { "-".to_string() } else { inv.join(" ") }, k, res, nops, limit).unwrap();
             id += 1;
         }
     }
@@ -451,9 +462,10 @@ pub fn replay_faults<W: Write>(out: &mut W, opts: &HashMap<String, String>) {
         let tree = parse_tree(f[2]);
         let inv: Vec<String> = if f[3] == "-" { vec![] } else { f[3].split(' ').map(|s| s.to_string()).collect() };
         let k: usize = f[4].parse().unwrap();
+        let limit: u64 = f.get(6).and_then(|r| r.split(';').find(|x| x.starts_with("limit="))).and_then(|x| x[6..].parse().ok()).unwrap_or(0);
         let (_, nops) = run_fault_case(&tree, &inv, None);
-        let (res, _) = run_fault_case(&tree, &inv, Some(k));
-        writeln!(out, "F|{}|{}|{}|{}|=>|{};nops={}", f[1], f[2], f[3], k, res, nops).unwrap();
+        let (res, _, _, _) = run_fault_case2(&tree, &inv, Some(k), limit);
+        writeln!(out, "F|{}|{}|{}|{}|=>|{};nops={};limit={}", f[1], f[2], f[3], k, res, nops, limit).unwrap();
     }
 }
 
